@@ -243,3 +243,20 @@ Print Assumptions C14_all_sheets_within_capacity.
 Print Assumptions C14_us_all_sheets_within_capacity.
 Print Assumptions C14_ie_all_sheets_within_capacity.
 Print Assumptions C14_legend_nonvacuous.
+
+(** Source tie (regenerated on every run): the fractions a tax report lists are those of the filtered gain/loss set.  The
+    per-entry tests of `EntrySetIterator.__next__`, re-read from abstract_entry_set.py (Model/GeneratedTie.v, fragment
+    entry_set) and interpreted by Model/EntrySetGen.v, select exactly [iter_window g_day] - the [cd_gls] the theorems above
+    quantify over (and the labelled copy [compute] keeps next to it): the fraction's taxable event is compared by its own
+    calendar day with both bounds.  Proofs/EntrySetGenProofs.v. *)
+From RP2V Require Import Model.GeneratedTie Model.EntrySetGen Proofs.EntrySetGenProofs.
+Theorem C14_source_tie_window_of_fractions :
+  (forall from_day to_day (gls : list gl),
+     iter_window_gen (fun g => t_ts (g_ev g)) from_day to_day gls = iter_window g_day from_day to_day gls) /\
+  (forall (L : Type) from_day to_day (labelled : list (gl * L)),
+     iter_window_gen (fun x => t_ts (g_ev (fst x))) from_day to_day labelled = iter_window (fun x => g_day (fst x)) from_day to_day labelled).
+Proof.
+  exact (conj (iter_window_gen_agrees (fun g => t_ts (g_ev g)))
+              (fun L => iter_window_gen_agrees (fun x : gl * L => t_ts (g_ev (fst x))))).
+Qed.
+Print Assumptions C14_source_tie_window_of_fractions.
